@@ -771,6 +771,47 @@ func (c *Ctx) dischargeIndex(s *PanicSite, depth int) (bool, string) {
 			}
 		}
 	}
+	// (e'') a parameter that every caller passes as a constant within the static length of the array (an
+	// enum-indexed table of counters)
+	if n := staticArrayLen(s.X.Type()); n >= 0 {
+		v := s.Idx
+		for {
+			if cv, ok := v.(*ssa.Convert); ok {
+				v = cv.X
+				continue
+			}
+			if ct, ok := v.(*ssa.ChangeType); ok {
+				v = ct.X
+				continue
+			}
+			break
+		}
+		if prm, ok := v.(*ssa.Parameter); ok && s.Fn.Parent() == nil {
+			pi := -1
+			for i, p := range s.Fn.Params {
+				if p == prm {
+					pi = i
+				}
+			}
+			sites := c.callersOf(s.Fn)
+			okAll := pi >= 0 && len(sites) > 0
+			for _, site := range sites {
+				args := site.Common().Args
+				if site.Common().IsInvoke() || pi >= len(args) {
+					okAll = false
+					break
+				}
+				k, isC := constInt(args[pi])
+				if !isC || k < 0 || k >= n {
+					okAll = false
+					break
+				}
+			}
+			if okAll {
+				return true, "every caller passes a constant within the array's static length"
+			}
+		}
+	}
 	return false, "index " + short(ie.String(), 80) + " into " + short(xe.String(), 80) + " not proven in range"
 }
 
@@ -913,6 +954,22 @@ func (c *Ctx) dischargeSlice(s *PanicSite, depth int) (bool, string) {
 	if pt, ok := s.X.Type().Underlying().(*types.Pointer); ok {
 		if arr, ok := pt.Elem().Underlying().(*types.Array); ok && need <= arr.Len() {
 			return true, "within the array length"
+		}
+	}
+	// a slice made with a constant length (make([]byte, 36), never re-sliced on the way here)
+	if ms := makeSliceOf(s.X); ms != nil {
+		if k, ok := constInt(ms.Len); ok && need <= k {
+			if v, isMS := s.X.(*ssa.MakeSlice); isMS && v == ms {
+				return true, "within the constant length the slice was made with"
+			}
+		}
+	}
+	// ... which the compiler writes as a slice [:k] of a fresh array
+	if sl, ok := s.X.(*ssa.Slice); ok && sl.Low == nil && sl.High != nil {
+		if _, isAlloc := sl.X.(*ssa.Alloc); isAlloc {
+			if k, ok := constInt(sl.High); ok && need <= k {
+				return true, "within the constant length the slice was made with"
+			}
 		}
 	}
 	return c.requireLen(s, xe, need, depth)
